@@ -27,10 +27,16 @@ namespace awkward {
   const BuilderPtr
   UnionBuilder::fromsingle(const ArrayBuilderOptions& options,
                            const BuilderPtr& firstcontent) {
+    // a RecordBuilder/TupleBuilder that has not begun its first record yet (e.g. after
+    // clear()) reports length -1: it holds no entries
+    int64_t length = firstcontent->length();
+    if (length < 0) {
+      length = 0;
+    }
     GrowableBuffer<int8_t> tags =
-      GrowableBuffer<int8_t>::full(options, 0, firstcontent->length());
+      GrowableBuffer<int8_t>::full(options, 0, length);
     GrowableBuffer<int64_t> index =
-      GrowableBuffer<int64_t>::arange(options, firstcontent->length());
+      GrowableBuffer<int64_t>::arange(options, length);
     std::vector<BuilderPtr> contents({ firstcontent });
     return std::make_shared<UnionBuilder>(options,
                                           tags,
